@@ -50,6 +50,7 @@ struct Scenario {
    std::string type = "slha";       ///< input-type option used
    SrcKind src = SRC_STDIN;
    std::vector<std::string> pre_args, post_args; ///< extra argv elements before/after the input option
+   bool materialise_file = false;   ///< write the document to <dir>/input.in even if the input option does not name it (raw command lines refer to it)
    std::string longname;            ///< SRC_MISSING_LONG: name (relative to the simulated directory) of a file that cannot be opened
    uint64_t chunk_seed = 0; unsigned chunk_max = 0; ///< stdin delivery schedule (0 = all at once)
    long readerr = -1;               ///< input stream fails after this many bytes (-1 = never)
@@ -93,6 +94,15 @@ static const char* const REPLACEMENTS[] = {"nan", "inf", "-inf", "1e400", "1e-40
                                            "2147483647", "-2147483648", "\xef\xbc\x91", "1e99999999999999999999",
                                            "111111111111111111111111111111111111111111111111111111111111111111111111111111111111111111111111111111111111111111111111111111111111111111111111111111111111111111111111111111111111111111111111111111111111111111111111111111111111111111111111111111111111111111111111111111111111111111111111111111111111111111111111111111111111111111111111111111111111111111111111.5"};
 constexpr int N_REPL = sizeof(REPLACEMENTS) / sizeof(REPLACEMENTS[0]);
+/// alphabet of the raw command lines (enumeration CMDLINE: every sequence of up to three atoms)
+static const char* const CMD_ATOMS[] = {
+   "--help", "-h", "--version", "-v",
+   "--slha-input-file=-", "--gm2calc-input-file=-", "--thdm-input-file=-",
+   "--slha-input-file=<FILE>", "--gm2calc-input-file=<FILE>", "--thdm-input-file=<FILE>",
+   "--slha-input-file=<MISSING>", "--thdm-input-file=<DIR>", "--gm2calc-input-file=", "--slha-input-file",
+   "--slha-input-file=-x", "--SLHA-INPUT-FILE=-", "-slha-input-file=-", "--slha-input-file==-", "--slha-input=-", "--thdm-input-file=--help",
+   "--help=1", "--helpx", "-hv", "--", "-", "", " ", "--thdm-input-file=-\n", "\xff\xfe", "=", "--=", "-v-", "--versio", "--h", "--gm2calc-input-file=<FILE>/", "--slha-input-file=<FILE> "};
+constexpr int N_ATOMS = sizeof(CMD_ATOMS) / sizeof(CMD_ATOMS[0]);
 static const double SCALES[] = {-1, 0.001, 0.1, 0.5, 0.9, 1.1, 2, 10, 1000, 1e6};
 constexpr int N_SCALE = sizeof(SCALES) / sizeof(SCALES[0]);
 constexpr int N_REPL_ENUM = N_REPL; ///< all kinds are enumerated exhaustively
@@ -317,6 +327,13 @@ inline void apply_op(Scenario& s, const Corpus& corpus, const std::vector<std::s
       if (a == "<empty>") a = "";
       (op == "arg" ? s.post_args : s.pre_args).push_back(a);
       note_fault(s, "extra_argument");
+   } else if (op == "rawarg") {
+      // rawarg K: one atom of the command-line alphabet, appended as it is; <FILE>, <MISSING>, <DIR> are replaced by
+      // paths of the simulated file system when the program is started
+      const int k = (int)(((num(1) % N_ATOMS) + N_ATOMS) % N_ATOMS);
+      s.pre_args.push_back(CMD_ATOMS[k]);
+      if (std::string(CMD_ATOMS[k]).find("<FILE>") != std::string::npos) s.materialise_file = true;
+      note_fault(s, "raw_command_line");
    } else if (op == "longarg") {
       // longarg <pre|post> <kind> <length>: a very long command-line argument
       const size_t len = (size_t)std::min<long long>(std::max<long long>(1, num(3)), 65536);
@@ -401,7 +418,8 @@ inline std::vector<std::string> gen_plan(const Corpus& corpus, uint64_t seed, st
       }
    };
    auto env_op = [&]() -> std::string {
-      switch (r.below(12)) {
+      switch (r.below(13)) {
+      case 12: return "rawarg " + std::to_string(r.below(N_ATOMS));
       case 10: { static const long lens[] = {64, 200, 219, 220, 255, 256, 257, 300, 511, 512, 1023, 1024, 4095, 4096, 4097, 20000, 65536};
                  return "src missinglong " + std::to_string(r.chance(0.6) ? lens[r.below(17)] : (long)(1 + r.below(1200))) + " " + std::to_string(r.below(2)); }
       case 11: { static const long lens[] = {64, 200, 255, 256, 300, 512, 1024, 4096, 20000, 65536};
